@@ -61,6 +61,7 @@ func (s *Streamer) binlogPosition() Position {
 //Stream 注册一个处理事务信息函数到Stream中
 func (s *Streamer) Stream(ctx context.Context, sendTransaction SendTransactionFunc) error {
 	s.ctx = ctx
+	s.errChan = nil
 	conn, err := newSlaveConnection(func() (conn dumpConn, e error) {
 		return mysql.NewDumpConn(s.dsn, ctx)
 	})
@@ -92,6 +93,11 @@ func (s *Streamer) Stream(ctx context.Context, sendTransaction SendTransactionFu
 
 //Error 每次使用Stream后需要检测Error
 func (s *Streamer) Error() error {
+	if s.errChan == nil {
+		// the last attempt failed before a dump was started; Stream has
+		// already returned that error and nothing will ever be sent here
+		return nil
+	}
 	select {
 	case err, ok := <-s.errChan:
 		if ok {
